@@ -58,7 +58,11 @@ func snapItem(it *astisub.Item) itemSnap {
 
 // contentDiff compares the non-time content of it with a snapshot.
 func contentDiff(it *astisub.Item, s itemSnap) string {
-	n := snapItem(it)
+	return snapDiff(snapItem(it), s)
+}
+
+// snapDiff compares two snapshots.
+func snapDiff(n, s itemSnap) string {
 	if !reflect.DeepEqual(n.Comments, s.Comments) && !(len(n.Comments) == 0 && len(s.Comments) == 0) {
 		return "comments changed"
 	}
@@ -99,6 +103,10 @@ func buildList(specs []cueSpec) *builtList {
 			Index:   100 + i,
 			Lines:   textLines(c.T),
 		}
+		if i%3 != 2 {
+			// a speaker on the first line: part of the content every operation must carry along
+			it.Lines[0].VoiceName = fmt.Sprintf("voice%d", i%2)
+		}
 		if i%2 == 0 {
 			it.Style = b.style
 			it.InlineStyle = &astisub.StyleAttributes{WebVTTAlign: "left"}
@@ -118,10 +126,18 @@ func buildList(specs []cueSpec) *builtList {
 func textLines(t string) []astisub.Line {
 	var ls []astisub.Line
 	for _, l := range strings.Split(t, "|") {
-		ls = append(ls, astisub.Line{Items: []astisub.LineItem{{Text: l}}})
+		ln := astisub.Line{}
+		// "x+y": one line made of two runs (same text as "xy", different structure)
+		for _, r := range strings.Split(l, "+") {
+			ln.Items = append(ln.Items, astisub.LineItem{Text: r})
+		}
+		ls = append(ls, ln)
 	}
 	return ls
 }
+
+// textKey is the text a cue shows, whatever its split into runs.
+func textKey(t string) string { return strings.ReplaceAll(t, "+", "") }
 
 func (b *builtList) indexOf(it *astisub.Item) int {
 	for i, p := range b.items {
@@ -176,6 +192,10 @@ func genInstant(t *rapid.T, max int64, label string) int64 {
 // genCues draws n cues with start <= end.
 func genCues(t *rapid.T, minN, maxN int, max int64, texts []string) []cueSpec {
 	n := rapid.IntRange(minN, maxN).Draw(t, "n")
+	if maxN >= 8 && rapid.IntRange(0, 24).Draw(t, "large") == 0 {
+		// now and then a list far above any internal small-size threshold
+		n = rapid.IntRange(100, 300).Draw(t, "nlarge")
+	}
 	cs := make([]cueSpec, n)
 	for i := range cs {
 		a := genInstant(t, max, "s")
